@@ -250,6 +250,7 @@ func splitmix(x *uint64) uint64 {
 //
 //go:norace
 func Begin(cfg Config) {
+	RunPendingFinalizers()
 	s := &sim{cfg: cfg, rng: cfg.Seed, turn: -2, sweepGen: -1}
 	s.tape = append([]uint32(nil), cfg.Tape...)
 	s.stats.Fingerprint = 0xcbf29ce484222325
@@ -272,6 +273,7 @@ func End() Stats {
 	if s == nil {
 		return Stats{}
 	}
+	RunPendingFinalizers()
 	s.ended = true
 	if s.pos < len(s.tape) {
 		s.stats.TapeUsed = s.tape[:s.pos]
@@ -730,11 +732,17 @@ func Yield(site string) {
 		// single caller: nothing to schedule, but the work is counted so that
 		// concurrent executions can be bounded relative to sequential ones
 		s.stats.SeqSteps++
+		if s.inline && finPending.Load() != 0 {
+			s.spawnPendingFinalizers() // promotes the run to scheduler mode
+		}
 		return
 	}
 	id := s.turn
 	if id < 0 {
 		return // driver context (reference computations between phases)
+	}
+	if finPending.Load() != 0 {
+		s.spawnPendingFinalizers()
 	}
 	s.stats.Steps++
 	s.tasks[id].steps++
